@@ -25,6 +25,21 @@ fn tag_pattern() -> Vec<u8> {
     b
 }
 
+/// another 64-byte sample that `Scalar::random` maps to the close tag: tag + q (not the canonical
+/// bytes of the tag, so a comparison of raw bytes would not notice)
+fn tag_plus_q_pattern() -> Vec<u8> {
+    let t = close_tag_ref().to_bytes();
+    let mut out = vec![0u8; 64];
+    let mut carry = 0u16;
+    for i in 0..32 {
+        let x = t[i] as u16 + crate::wire::Q_LE[i] as u16 + carry;
+        out[i] = x as u8;
+        carry = x >> 8;
+    }
+    out[32] = carry as u8;
+    out
+}
+
 fn seed_of(rng: &mut impl RngCore) -> [u8; 32] {
     let mut s = [0u8; 32];
     rng.fill_bytes(&mut s);
@@ -46,12 +61,17 @@ fn nonce_generation(c: &mut Ctx) {
             if Scalar::random(&mut r) != close_tag_ref() {
                 return c.inconclusive("C18: the crafted pattern does not sample the close tag");
             }
+            let mut r = ScriptRng::new([1u8; 32]);
+            r.inject(0, tag_plus_q_pattern());
+            if Scalar::random(&mut r) != close_tag_ref() {
+                return c.inconclusive("C18: the crafted tag+q pattern does not sample the close tag");
+            }
         }
         for run in 0..c.tier.pick(40, 400) {
             let k = 1 + run % 4; // tag sampled k times in a row
             let mut r = ScriptRng::new(seed_of(&mut rng));
             for i in 0..k {
-                r.inject(i, tag_pattern());
+                r.inject(i, if (run / 4 + i) % 2 == 0 { tag_pattern() } else { tag_plus_q_pattern() });
             }
             c.eval();
             c.distinct(&format!("test_new_nonce/{}in-a-row/{}", k, run));
@@ -371,6 +391,22 @@ fn channel_id(c: &mut Ctx, m: &'static Merchant, m2: &'static Merchant) {
                 ("merchant-account-info-longer", mk(&mr, &cr, pk, &mi3, &ci)),
                 ("customer-account-info-longer", mk(&mr, &cr, pk, &mi, &ci3)),
             ];
+            // the key input changed in a single element (each of its elements in turn, first rounds only)
+            if k < 3 {
+                if let Ok(t) = trace(pk) {
+                    for a in t.atoms.iter().filter(|a| matches!(a.kind, crate::tracer::Kind::G1 | crate::tracer::Kind::G2)) {
+                        let Some(alt) = crate::wire::alt_valid(a.kind, t.atom_bytes(a), &mut rng) else { continue };
+                        let Ok(pk2) = dec::<zk::PublicKey>(&t.with_replaced(a, &alt)) else { continue };
+                        c.eval();
+                        c.distinct(&format!("cid/key-element/{}", a.fpath));
+                        if mk(&mr, &cr, &pk2, &mi, &ci) == Some(base) {
+                            c.violation(&format!("C18 channel-id-unchanged input=public-key-element:{}", a.fpath), json!({"element": a.fpath}));
+                        } else {
+                            c.count("channel_id_changed[public-key-element]", 1);
+                        }
+                    }
+                }
+            }
             for (what, v) in variants {
                 c.eval();
                 if v == Some(base) {
@@ -396,6 +432,52 @@ fn channel_id(c: &mut Ctx, m: &'static Merchant, m2: &'static Merchant) {
     });
 }
 
+/// A hostile customer who gets the merchant to sign, as "closing signature", a close state whose
+/// second slot is not the close tag holds a pay token. One plan of the C01 forger, judged here.
+fn forged_closing_signature(c: &mut Ctx, m: &'static Merchant) {
+    use crate::props::c01;
+    for k in 0..c.tier.pick(2usize, 10) {
+        let name = format!("forger/close-tag-slot/{}", k);
+        c.case(&name, |c| {
+            let mut rng = c.rng(&name);
+            let template = match c01::honest_template(m, c.seed) {
+                Ok(t) => t,
+                Err(e) => return c.inconclusive(&e),
+            };
+            let cid = new_channel_id(m, &mut rng, b"m", b"c");
+            let a = c01::Agreed { cid_bytes: cid.to_bytes(), cid: raw32_to_scalar(&cid.to_bytes()), cust: 10 + k as u64, merch: 1000, context: name.as_bytes().to_vec() };
+            let j = c01::Judge { m, a: &a, cid, template: &template, prop: "C18" };
+            // positive control
+            {
+                use ff::Field;
+                let n = Scalar::random(&mut rng);
+                let l = Scalar::random(&mut rng);
+                let p = crate::shadow::EstProver::commit(&mut rng, &m.pk, a.state(n, l), a.close(l));
+                let Some(c0) = j.draft_challenge(c, &mut rng, &p) else { return };
+                match j.submit(c, &mut rng, "control/honest", &p, &p.state.respond(&c0), &p.close.respond(&c0), true) {
+                    Some((true, _)) => c.count("forger_positive_controls", 1),
+                    _ => return c.inconclusive("C18: forger positive control rejected"),
+                }
+            }
+            for w in c01::false_witnesses(&a, &mut rng).into_iter().filter(|w| w.name.starts_with("close-tag")) {
+                c.distinct(&format!("forger/{}/{}", w.name, k));
+                let mut p = crate::shadow::EstProver::commit(&mut rng, &m.pk, w.state, w.close);
+                let Some(mut ch) = j.draft_challenge(c, &mut rng, &p) else { continue };
+                for _ in 0..3 {
+                    let rs = p.state.respond(&ch);
+                    let rc = p.close.respond(&ch);
+                    p.revealed[1] = rc.msg[1] - ch * close_tag_ref();
+                    match j.submit(c, &mut rng, &format!("strategy=post-challenge field=close_tag_commitment_scalar witness={}", w.name), &p, &rs, &rc, true) {
+                        Some((false, c1)) if c1 != ch => ch = c1,
+                        _ => break,
+                    }
+                }
+                c.count("forger_attempts", 1);
+            }
+        });
+    }
+}
+
 pub fn run(c: &mut Ctx) {
     c.note("rule", json!("nonce generation under RNG streams that sample the close tag (32 tag bytes || 32 zero bytes) at every 64-byte draw of test_new_nonce / Requested::new (1-4 times in a row) and of Ready::start (quick: first draws and a spread; thorough: all), with the draw log proving the rejection path was taken; every nonce atom of every state of honest histories; pay token re-labelled as closing signature and closing signature re-labelled as pay token on every Ready state; channel id: identical inputs and exactly-one-input changes. Distinct = distinct (call, draw index, repetitions) injections consumed, distinct states and channel-id input sets."));
     let m = match fixtures::merchant(c.seed, "m0") {
@@ -411,4 +493,5 @@ pub fn run(c: &mut Ctx) {
     ready_start(c, m);
     histories(c, m);
     channel_id(c, m, m2);
+    forged_closing_signature(c, m);
 }
